@@ -27,13 +27,11 @@ fn determinism_cfg() -> Cfg {
     c
 }
 
-/// "The variable N has not been assigned a value" where N is an output-capable signal
-fn unassigned_output_name(msg: &str, sigs: &[crate::model::Sig]) -> bool {
-    msg.split("The variable ")
-        .nth(1)
-        .and_then(|r| r.split(' ').next())
-        .map(|n| sigs.iter().any(|s| s.name == n && s.is_output()))
-        .unwrap_or(false)
+/// Structural signature of the open finding F1 (no message text involved): the program has a
+/// `let N` inside a `while` body where N is also an output-capable signal, so that a read of N
+/// can be a variable for the parser and the device output at run time.
+fn f1_shape(prog: &crate::model::Program, sigs: &[crate::model::Sig]) -> bool {
+    crate::model::names_let_in_while(prog).iter().any(|n| sigs.iter().any(|s| s.name == *n && s.is_output()))
 }
 
 impl Property for C15 {
@@ -253,7 +251,7 @@ impl Property for C15 {
                         return out;
                     }
                     if let Some((k, StaticItem::Err(m))) = items.iter().enumerate().last() {
-                        if unassigned_output_name(m, &built.sigs) && !matches!(d.items.get(k), Some(RealItem::RuntimeErr(_))) {
+                        if f1_shape(&built.prog, &built.sigs) && !matches!(d.items.get(k), Some(RealItem::RuntimeErr(_))) {
                             out.fail(
                                 "c15:static-run-reads-output-through-unassigned-variable",
                                 format!("item {k}: static iteration fails with '{m}' where the dynamic run ({which} script) goes on: {:?}", d.items.get(k).map(|x| x.short())),
@@ -263,7 +261,7 @@ impl Property for C15 {
                     }
                     for (k, (si, di)) in items.iter().zip(&d.items).enumerate() {
                         match (si, di) {
-                            (StaticItem::Err(m), RealItem::Row(_)) if unassigned_output_name(m, &built.sigs) => {
+                            (StaticItem::Err(m), RealItem::Row(_)) if f1_shape(&built.prog, &built.sigs) => {
                                 // known finding (open): a name that is a variable for the parser
                                 // (let on a path that did not run) but resolves to the device
                                 // output of the same name at run time
